@@ -7,6 +7,8 @@ import (
 	"errors"
 	"fmt"
 	"net/http"
+	"reflect"
+	"strings"
 	"testing"
 	"time"
 
@@ -40,18 +42,24 @@ type c08PReq struct {
 	Dt     int64 `json:"dt"`
 	K      int   `json:"k"` // 0 backend answers Status (not a failure code), 1 transport error, 2 answers Status (a failure code)
 	Status int   `json:"status"`
+	Body   int   `json:"body"` // request shape: 0 no body, 1 buffered body, 2 stream body, 3 stream with empty body
 }
 
 type c08PIn struct {
-	Pol  c08PPol   `json:"pol"`
-	T0   int64     `json:"t0"`
-	Reqs []c08PReq `json:"reqs"`
+	Pol   c08PPol   `json:"pol"`
+	T0    int64     `json:"t0"`
+	Retry int       `json:"retry"` // > 0: a retry policy with that many attempts is configured alongside the breaker
+	Reqs  []c08PReq `json:"reqs"`
 }
 
 type c08PStep struct {
 	Status    int    `json:"status"`
 	Result    string `json:"result"`
 	Contacted int    `json:"contacted"`
+	Stream    bool   `json:"stream"` // req.IsStream() as seen by the pool
+	State     int64  `json:"state"`  // breaker state / stateID / results in its window after the request
+	ID        int64  `json:"id"`
+	Total     int64  `json:"total"`
 }
 
 type c08PObs struct {
@@ -73,13 +81,48 @@ pools:
   failureCodes: [500, 503]
 `
 
+const c08PYamlRetry = c08PYaml + `  retryPolicy: c08retry
+`
+
+// c08PBreaker digs the breaker out of the pool's wrapper (resilience.circuitBreakerWrapper
+// embeds *circuitbreaker.CircuitBreaker as an exported field of an unexported struct type).
+func c08PBreaker(sp *ServerPool) *libcb.CircuitBreaker {
+	v := reflect.ValueOf(sp.circuitBreakerWrapper)
+	return v.Field(0).Interface().(*libcb.CircuitBreaker)
+}
+
+func c08PRequest(shape int) *httpprot.Request {
+	var stdr *http.Request
+	switch shape {
+	case 0:
+		stdr, _ = http.NewRequest(http.MethodGet, "http://c08.example/x", nil)
+	case 3:
+		stdr, _ = http.NewRequest(http.MethodPost, "http://c08.example/x", http.NoBody)
+	default:
+		stdr, _ = http.NewRequest(http.MethodPost, "http://c08.example/x", strings.NewReader("0123456789"))
+	}
+	req, _ := httpprot.NewRequest(stdr)
+	max := int64(0)
+	if shape >= 2 {
+		max = -1
+	}
+	if err := req.FetchPayload(max); err != nil {
+		panic(err)
+	}
+	return req
+}
+
 func c08PRun(in c08PIn) (obs c08PObs) {
 	now := c08PBase.Add(time.Duration(in.T0))
 	libcb.VerifC08SetNow(func() time.Time { return now })
 	defer libcb.VerifC08SetNow(nil)
 
 	raw := map[string]interface{}{}
-	if err := yaml.Unmarshal([]byte(c08PYaml), &raw); err != nil {
+	src := c08PYaml
+	if in.Retry > 0 {
+		src = c08PYamlRetry
+	}
+	if err := yaml.Unmarshal([]byte(src), &raw); err != nil {
 		panic(err)
 	}
 	spec, err := filters.NewSpec(nil, "", raw)
@@ -93,7 +136,11 @@ func c08PRun(in c08PIn) (obs c08PObs) {
 	if in.Pol.Time {
 		typ = "TIME_BASED"
 	}
-	px.InjectResiliencePolicy(map[string]resilience.Policy{"c08cb": &resilience.CircuitBreakerPolicy{
+	pols := map[string]resilience.Policy{}
+	if in.Retry > 0 {
+		pols["c08retry"] = &resilience.RetryPolicy{MaxAttempts: in.Retry, WaitDuration: "1ms"}
+	}
+	pols["c08cb"] = &resilience.CircuitBreakerPolicy{
 		SlidingWindowType:                typ,
 		FailureRateThreshold:             uint8(in.Pol.Fthr),
 		SlowCallRateThreshold:            uint8(in.Pol.Sthr),
@@ -103,7 +150,9 @@ func c08PRun(in c08PIn) (obs c08PObs) {
 		SlowCallDurationThreshold:        fmt.Sprintf("%dns", in.Pol.SlowDur),
 		MaxWaitDurationInHalfOpen:        fmt.Sprintf("%dns", in.Pol.MaxWait),
 		WaitDurationInOpen:               fmt.Sprintf("%dns", in.Pol.Wait),
-	}})
+	}
+	px.InjectResiliencePolicy(pols)
+	breaker := c08PBreaker(px.mainPool)
 
 	saved := fnSendRequest
 	defer func() { fnSendRequest = saved }()
@@ -127,8 +176,8 @@ func c08PRun(in c08PIn) (obs c08PObs) {
 					step.Result = "panic"
 				}
 			}()
-			stdr, _ := http.NewRequest(http.MethodGet, "http://c08.example/x", nil)
-			req, _ := httpprot.NewRequest(stdr)
+			req := c08PRequest(rq.Body)
+			step.Stream = req.IsStream()
 			ctx := context.New(tracing.NoopSpan)
 			ctx.SetRequest(context.DefaultNamespace, req)
 			step.Result = px.Handle(ctx)
@@ -137,6 +186,8 @@ func c08PRun(in c08PIn) (obs c08PObs) {
 			}
 		}()
 		step.Contacted = contacted
+		st, id, total := breaker.VerifC08Peek()
+		step.State, step.ID, step.Total = int64(st), int64(id), int64(total)
 		obs.Reqs = append(obs.Reqs, step)
 	}
 	return
@@ -148,14 +199,18 @@ func c08PGen(r *vfRand, adv bool) c08PIn {
 	p.Min = r.Range(0, p.Size)
 	p.Wait = []int64{0, 1_000_000_000, 3_000_000_000}[r.Intn(3)]
 	p.MaxWait = []int64{0, 0, 1_000_000_000}[r.Intn(3)]
-	in := c08PIn{Pol: p, T0: int64(r.Intn(1_000_000_000))}
+	in := c08PIn{Pol: p, T0: int64(r.Intn(1_000_000_000)), Retry: r.PickInt(0, 0, 2, 3, 1)}
+	pstream := r.PickInt(0, 30, 60, 100)
 	n := r.Range(3, 30)
 	if adv {
 		n = r.Range(20, 80)
 	}
 	pf := r.PickInt(20, 50, 80)
 	for i := 0; i < n; i++ {
-		q := c08PReq{Status: r.PickInt(200, 204, 404)}
+		q := c08PReq{Status: r.PickInt(200, 204, 404), Body: r.Intn(2)}
+		if r.Chance(pstream, 100) {
+			q.Body = 2 + r.Intn(2)
+		}
 		switch r.Intn(6) {
 		case 0:
 			q.Dt = p.Wait
